@@ -26,7 +26,7 @@ def plan(tier):
     base = {"case_time_limit": 240,
             "required_classes": ["complex-state", "mpdm", "bra!=ket", "duplicate-operators", "shared-prefix", "shared-suffix",
                                  "complex-operator", "coeff!=1", "unnormalised", "occupations-interleaved", "rdm", "entropy",
-                                 "long-chain", "output-ordering-permuted", "own-config-truncating"],
+                                 "long-chain", "output-ordering-permuted", "own-config-truncating", "bra-ket-pair"],
             "required_counters": {"oracle": 2000, "cached_environments_used": 100}}
     if tier == "quick":
         base.update({"ncases": 256, "min_nontrivial": 100})
@@ -203,6 +203,20 @@ def run_case(ctx):
             sc2 = max(float(np.linalg.norm(tensor_vec(psi)) * np.linalg.norm(tensor_vec(other)) * np.linalg.norm(d)), 1e-300)
             ctx.count("oracle")
             ctx.close(complex(got), complex(expect_ref(psi, d, other)), 1e-10, "transition-amplitude|mismatch", scale=sc2)
+    if other is not None and ops and psi.is_mps:
+        # the correlation-function pair object: <bra| O |ket> of the REPRESENTED states (prefactors included), O optional
+        from renormalizer.mps.mps import BraKetPair
+        mpo, d, _ = ops[int(rng.integers(0, len(ops)))]
+        cb, ck = complex(other.coeff), complex(psi.coeff)
+        for with_op in (False, True):
+            pair = ctx.lib(BraKetPair, other, psi, mpo if with_op else None, what="BraKetPair")
+            want = np.conj(cb) * ck * (expect_ref(psi, d, other) if with_op else np.vdot(tensor_vec(other), tensor_vec(psi)))
+            scp = max(float(abs(cb) * abs(ck) * np.linalg.norm(tensor_vec(psi)) * np.linalg.norm(tensor_vec(other))
+                            * (np.linalg.norm(d) if with_op else 1.0)), 1e-300)
+            ctx.count("oracle")
+            ctx.cls("bra-ket-pair")
+            ctx.close(complex(pair.ft), complex(want), 1e-10, "BraKetPair|ft-is-not-the-overlap-of-the-represented-states|" +
+                      ("with-operator" if with_op else "plain"), scale=scp)
 
     # ---- batched fast path ------------------------------------------------------------------------
     if ops:
